@@ -6,11 +6,16 @@
 (* transition is exactly one Checkpoint action, or a change of the driver  *)
 (* variables only) that has the shape of a crash/restore experiment:       *)
 (*                                                                         *)
-(*   ref     the reference (instance 1) runs generations 0..MaxGen (or to  *)
-(*           its stop) and the abstract state after every generation is    *)
-(*           remembered in refst                                           *)
-(*   orig    the original (instance 2) is stepped; after ANY generation k  *)
-(*           < MaxGen the driver may stop stepping it and choose           *)
+(*   ref     the reference (instance 1) runs generations 0..MaxGen.  If    *)
+(*           its configuration has a limit it runs INTO ITS STOP (Step     *)
+(*           returns the stop message, the solver is finalized, the forced *)
+(*           dump is written), gets its limit raised (`raise`, realised    *)
+(*           as SetEvaluationLimits with new=False or new=True: nw) and is *)
+(*           continued.  The abstract state after every one of its         *)
+(*           commands is remembered in refst (command log: reflog)         *)
+(*   orig    the original (instance 2) is driven the same way; after ANY   *)
+(*           generation k < MaxGen -- the stop generation included, before *)
+(*           and after the raise -- the driver may leave it and choose     *)
 (*             path  F  SaveSolver(file) .. LoadSolver(file)               *)
 (*                   P  LoadSolver(file of the periodic dump)              *)
 (*                   D  dill.dumps .. dill.loads                           *)
@@ -19,15 +24,18 @@
 (*                   instance)                                             *)
 (*             mode  what else happens (see Plan)                          *)
 (*   run     the plan (a sequence of one-shot commands) is executed; a     *)
-(*           command that is not executable (a Step of an instance that    *)
-(*           stopped or reached MaxGen) is skipped                         *)
+(*           Step of an instance that reached MaxGen is skipped; a Step of *)
+(*           a STOPPED instance is preceded by the same `raise` the        *)
+(*           reference got, so restored / copied instances and the         *)
+(*           original all run into and past their stops                    *)
 (*                                                                         *)
 (* After every executed command the script records what the specification  *)
 (* says about the affected instance x:                                     *)
 (*   g   its generation counter       st  whether it stopped               *)
 (*   f   its evaluation counter (exact for the DE kinds without ranges)    *)
-(*   r   the generation of the reference whose WHOLE abstract state equals *)
-(*       that of x (-1: the specification claims no such equality)         *)
+(*   r   the index (0-based, into the reference's command log) of the      *)
+(*       reference state whose WHOLE abstract state equals that of x       *)
+(*       (-1: the specification claims no such equality)                   *)
 (*   e   the other live instances whose abstract state equals that of x    *)
 (*   y   source instance (copy), writer of the snapshot (load), new limit   *)
 (* The harness executes the commands on real solvers and requires: equal   *)
@@ -41,28 +49,37 @@ EXTENDS Checkpoint, Json, IOUtils
 
 CONSTANTS Tier        \* "quick" | "thorough": which settings / which (k, path, mode) combinations
 
-VARIABLES pc, plan, script, hdr, refst
-gvars == <<vars, pc, plan, script, hdr, refst>>
+VARIABLES pc, plan, script, hdr, refst, reflog
+gvars == <<vars, pc, plan, script, hdr, refst, reflog>>
 
 (* ---- the settings catalogue: ids are shared with harness/check_C06.py (SETTINGS) ---- *)
 S(id, sf, em, lim, le, rg, dk) == [id |-> id, sf |-> sf, em |-> em, lim |-> lim, le |-> le, rg |-> rg, dk |-> dk]
+(* stop generations: a few generations before the end, so that every stopped run is continued for several steps *)
+Even == 2 * ((MaxGen - 3) \div 2)        \* a multiple of 2
+Odd == Even + 1
+Tri == 3 * ((MaxGen - 3) \div 3)         \* a multiple of 3
 Catalogue == {
   S(1, 0, FALSE, None, None, FALSE, FALSE),           \* plain: no bounds, default monitors
   S(2, 0, FALSE, None, None, TRUE, FALSE),            \* strict ranges
   S(3, 0, FALSE, None, None, FALSE, FALSE),           \* constraint: pure python function
-  S(4, 0, FALSE, None, None, FALSE, FALSE),           \* constraint built with mystic.constraints
+  S(4, 0, FALSE, None, None, FALSE, FALSE),           \* constraint built with mystic.symbolic
   S(5, 0, FALSE, None, None, FALSE, FALSE),           \* penalty (mystic.penalty)
   S(6, 0, TRUE, None, None, FALSE, FALSE),            \* Monitor as step and as evaluation monitor
   S(7, 0, TRUE, None, None, FALSE, FALSE),            \* VerboseMonitor (quiet) as step and evaluation monitor
-  S(8, 0, FALSE, MaxGen - 2, None, FALSE, FALSE),     \* generation limit: the run stops at MaxGen-2
-  S(9, 0, FALSE, None, NP * (MaxGen - 1), FALSE, TRUE), \* evaluation limit (DE kinds): stops at MaxGen-2
+  S(8, 0, FALSE, MaxGen - 3, None, FALSE, FALSE),     \* generation limit: the run stops at MaxGen-3
+  S(9, 0, FALSE, None, NP * (MaxGen - 2), FALSE, TRUE), \* evaluation limit (DE kinds): stops at MaxGen-3
   S(10, 1, FALSE, None, None, FALSE, FALSE),          \* periodic dump every generation
   S(11, 2, FALSE, None, None, FALSE, FALSE),          \* ... every 2nd
   S(12, 3, TRUE, None, None, FALSE, FALSE),           \* ... every 3rd, with evaluation monitor
-  S(13, 2, TRUE, MaxGen - 1, None, TRUE, FALSE),      \* everything: ranges + constraint + penalty + monitors + dump + limit
+  S(13, 2, TRUE, Odd, None, TRUE, FALSE),             \* everything: ranges + constraint + penalty + monitors + dump
+                                                      \*   every 2nd + limit at an ODD generation (not a dump generation)
   S(14, 0, FALSE, None, None, FALSE, FALSE),          \* compound termination Or(ChangeOverGeneration, VTR, When(...))
-  S(15, 1, TRUE, MaxGen - 1, None, FALSE, FALSE) }    \* dump every generation + monitors + limit
-QuickIds == {1, 2, 3, 5, 6, 8, 9, 11, 13, 14}
+  S(15, 1, TRUE, MaxGen - 3, None, FALSE, FALSE),     \* dump every generation + monitors + limit (no ranges)
+  S(16, 1, FALSE, MaxGen - 4, None, TRUE, FALSE),     \* ranges + dump every generation + limit: the stop IS a dump generation
+  S(17, 2, TRUE, Even, None, TRUE, FALSE),            \* ranges + dump every 2nd + limit at an EVEN generation (a dump generation)
+  S(18, 3, FALSE, Tri, None, TRUE, FALSE),            \* ranges + dump every 3rd + limit at a multiple of 3
+  S(19, 0, FALSE, MaxGen - 3, None, TRUE, FALSE) }    \* ranges + limit, no restart file
+QuickIds == {1, 2, 3, 5, 6, 8, 9, 11, 13, 14, 16, 17}
 
 GenSettings ==
   LET pool == IF Tier = "quick" THEN {c \in Catalogue : c.id \in QuickIds} ELSE Catalogue
@@ -123,7 +140,7 @@ Plan(p, rm, m) ==
 SlotOf(c) == IF c = "loadF" THEN "F" ELSE IF c = "loadP" THEN "P" ELSE "D"
 
 Executable(cm) ==
-  CASE cm.c = "step" -> inst[cm.x].alive /\ inst[cm.x].gens < MaxGen /\ ~Stopped(cm.x)
+  CASE cm.c = "step" -> inst[cm.x].alive /\ (busy = cm.x \/ inst[cm.x].gens < MaxGen)
     [] cm.c \in {"saveF", "saveD"} -> inst[cm.x].alive /\ inst[cm.x].gens >= 0
     [] cm.c \in {"loadF", "loadP", "loadD"} -> store[SlotOf(cm.c)].full
     [] cm.c = "copy" -> inst[cm.y].alive
@@ -135,96 +152,132 @@ Norm(p) == IF p = << >> THEN p ELSE IF Executable(p[1]) THEN p ELSE Norm(SubSeq(
 
 (* ---- what the specification says about instance x after a command: evaluated in the NEW state, hence the ---- *)
 (* ---- explicitly primed variables (c, x, y are values of the old state)                                   ---- *)
-EqRefN(x) == LET a == Abs(inst'[x], cell') IN
-             IF a.gens >= 0 /\ a.gens + 1 <= Len(refst) /\ refst[a.gens + 1] = a THEN a.gens ELSE -1
+EqRefN(x) == LET a == Abs(inst'[x], cell')
+                 ms == {m \in 1..Len(refst) : refst[m] = a}
+             IN IF ms = {} THEN -1 ELSE (CHOOSE m \in ms : TRUE) - 1
 EqInstN(x) == {z \in Ids \ {x} : inst'[z].alive /\ Abs(inst'[z], cell') = Abs(inst'[x], cell')}
 ObsN(c, x, y) == [c |-> c, x |-> x, y |-> y, g |-> inst'[x].gens, f |-> Fcalls(inst'[x], cell'),
                   st |-> StoppedWith(inst'[x], cell'), r |-> EqRefN(x), e |-> EqInstN(x)]
 Record(c, x, y) == script' = Append(script, ObsN(c, x, y))
 
+(* how `raise` is realised: 0 = SetEvaluationLimits(generations=G), 1 = SetEvaluationLimits(generations=G-now, new=True) *)
+(* both realisations for the two range+limit settings in the thorough tier, otherwise alternating by setting id  *)
+NwChoices(sid) == IF Tier = "thorough" /\ sid \in {16, 19} THEN {0, 1} ELSE {sid % 2}
+
 (* ---- the driver ---- *)
 GInit ==
   /\ "C06_LIST" \notin DOMAIN IOEnv        \* C06_LIST: only print the catalogue (no behaviours)
   /\ Init
-  /\ pc = "ref" /\ plan = << >> /\ script = << >> /\ refst = << >>
-  /\ hdr = [k |-> -1, path |-> "", rng |-> "", mode |-> ""]
+  /\ pc = "ref" /\ plan = << >> /\ script = << >> /\ refst = << >> /\ reflog = << >>
+  /\ hdr = [k |-> -1, path |-> "", rng |-> "", mode |-> "", nw |-> 0, atstop |-> FALSE]
 
-KeepDriver == UNCHANGED <<plan, script, hdr>>
+(* one critical section of Step() of instance i; the public call is complete when busy' = 0 *)
+Ready(i, last) == busy = i \/ (busy = 0 /\ inst[i].gens < last /\ ~Stopped(i))
 
 RefStep ==
   /\ pc = "ref"
-  /\ \/ /\ Step(1)
-        /\ refst' = Append(refst, Abs(inst'[1], cell'))
-        /\ pc' = "ref"
-     \/ /\ ~(inst[1].gens < MaxGen /\ ~Stopped(1))
+  /\ \/ /\ Ready(1, MaxGen)
+        /\ StepPart(1)
+        /\ IF busy' = 0
+           THEN refst' = Append(refst, Abs(inst'[1], cell')) /\ reflog' = Append(reflog, "step")
+           ELSE UNCHANGED <<refst, reflog>>
+        /\ UNCHANGED <<pc, hdr>>
+     \/ /\ busy = 0 /\ Stopped(1) /\ inst[1].gens < MaxGen      \* the reference stopped: raise its limit, go on
+        /\ SetCfg(1, Raised(inst[1].cfg))
+        /\ \E v \in NwChoices(inst[1].cfg.id) : hdr' = [hdr EXCEPT !.nw = v]
+        /\ refst' = Append(refst, Abs(inst'[1], cell')) /\ reflog' = Append(reflog, "raise")
+        /\ UNCHANGED pc
+     \/ /\ busy = 0 /\ inst[1].gens = MaxGen
         /\ pc' = "orig"
-        /\ UNCHANGED <<vars, refst>>
-  /\ KeepDriver
+        /\ UNCHANGED <<vars, refst, reflog, hdr>>
+  /\ UNCHANGED <<plan, script>>
 
 OrigStep ==
   /\ pc = "orig"
-  /\ inst[2].gens < MaxGen - 1          \* at least one generation is left for the continuation
-  /\ Step(2)
-  /\ UNCHANGED <<pc, refst>>
-  /\ KeepDriver
+  /\ \/ /\ Ready(2, MaxGen - 1)          \* at least one generation is left for the continuation
+        /\ StepPart(2)
+        /\ IF busy' = 0 THEN Record("step", 2, 0) ELSE UNCHANGED script
+     \/ /\ busy = 0 /\ Stopped(2) /\ inst[2].gens < MaxGen - 1
+        /\ SetCfg(2, Raised(inst[2].cfg))
+        /\ Record("raise", 2, 0)
+  /\ UNCHANGED <<pc, plan, hdr, refst, reflog>>
 
 Choose ==
-  /\ pc = "orig"
-  /\ inst[2].gens >= 0 /\ ~Stopped(2)
+  /\ pc = "orig" /\ busy = 0
+  /\ inst[2].gens >= 0
   /\ \E p \in Paths, rm \in {"restore", "scramble"}, m \in Modes :
        /\ p = "P" => inst[2].cfg.sf > 0
        /\ Allowed(inst[2].cfg, inst[2].gens, p, rm, m)
        /\ plan' = Plan(p, rm, m)
-       /\ hdr' = [k |-> inst[2].gens, path |-> p, rng |-> rm, mode |-> m]
+       /\ hdr' = [hdr EXCEPT !.k = inst[2].gens, !.path = p, !.rng = rm, !.mode = m, !.atstop = Stopped(2)]
   /\ pc' = "run"
-  /\ UNCHANGED <<vars, script, refst>>
+  /\ UNCHANGED <<vars, script, refst, reflog>>
 
 Exec ==
   /\ pc = "run"
   /\ Norm(plan) # << >>
   /\ LET np == Norm(plan)
          cm == np[1]
-     IN /\ plan' = SubSeq(np, 2, Len(np))
-        /\ CASE cm.c = "step" -> Step(cm.x) /\ Record(cm.c, cm.x, 0)
-             [] cm.c = "saveF" -> Save(cm.x, "F") /\ Record(cm.c, cm.x, 0)
-             [] cm.c = "saveD" -> Save(cm.x, "D") /\ Record(cm.c, cm.x, 0)
-             [] cm.c \in {"loadF", "loadP", "loadD"} ->
-                  Load(SlotOf(cm.c), cm.x) /\ Record(cm.c, cm.x, store[SlotOf(cm.c)].by)
-             [] cm.c = "copy" -> DeepCopy(cm.y, cm.x) /\ Record(cm.c, cm.x, cm.y)
-             [] cm.c = "rrng" -> RestoreRng(cm.x) /\ Record(cm.c, cm.x, 0)
-             [] cm.c = "scr" -> Scramble(cm.x) /\ Record(cm.c, cm.x, 0)
-             [] OTHER ->       \* relimit: a generation limit one past the present generation
-                  LET c2 == [inst[cm.x].cfg EXCEPT !.lim = inst[cm.x].gens + 1] IN
-                  SetCfg(cm.x, c2) /\ Record(cm.c, cm.x, c2.lim)
-  /\ UNCHANGED <<pc, hdr, refst>>
+         rest == SubSeq(np, 2, Len(np))
+     IN IF cm.c = "step"
+        THEN IF busy = 0 /\ Stopped(cm.x)
+             THEN (* a stopped instance is continued the way the reference was: raise first *)
+                  /\ SetCfg(cm.x, Raised(inst[cm.x].cfg))
+                  /\ Record("raise", cm.x, 0)
+                  /\ plan' = np
+             ELSE /\ StepPart(cm.x)
+                  /\ IF busy' = 0 THEN Record("step", cm.x, 0) /\ plan' = rest
+                                  ELSE UNCHANGED script /\ plan' = np
+        ELSE /\ plan' = rest
+             /\ CASE cm.c = "saveF" -> Save(cm.x, "F") /\ Record(cm.c, cm.x, 0)
+                  [] cm.c = "saveD" -> Save(cm.x, "D") /\ Record(cm.c, cm.x, 0)
+                  [] cm.c \in {"loadF", "loadP", "loadD"} ->
+                       Load(SlotOf(cm.c), cm.x) /\ Record(cm.c, cm.x, store[SlotOf(cm.c)].by)
+                  [] cm.c = "copy" -> DeepCopy(cm.y, cm.x) /\ Record(cm.c, cm.x, cm.y)
+                  [] cm.c = "rrng" -> RestoreRng(cm.x) /\ Record(cm.c, cm.x, 0)
+                  [] cm.c = "scr" -> Scramble(cm.x) /\ Record(cm.c, cm.x, 0)
+                  [] OTHER ->       \* relimit: a generation limit of its own, one past the present generation
+                       LET c2 == [inst[cm.x].cfg EXCEPT !.lim = inst[cm.x].gens + 1] IN
+                       SetCfg(cm.x, c2) /\ Record(cm.c, cm.x, c2.lim)
+  /\ UNCHANGED <<pc, hdr, refst, reflog>>
 
-Done == pc = "run" /\ Norm(plan) = << >>
+Done == pc = "run" /\ busy = 0 /\ Norm(plan) = << >>
 
 GNext == RefStep \/ OrigStep \/ Choose \/ Exec
 GSpec == GInit /\ [][GNext]_gvars
 
 (* ---- sanity of the generated scripts, checked by TLC ---- *)
-(* whenever the premise of ResumeEquivalence is met by construction (generator restored, no re-clipping       *)
-(* perturbation, configuration untouched) the script really claims equality with the reference after every    *)
-(* step of a restored instance -- the scripts are not vacuous                                                  *)
+(* whenever the premise of ResumeEquivalence is met by construction (generator restored, configuration only    *)
+(* changed the way the reference's was, not a deep copy whose forced re-decoration re-clipped) the script      *)
+(* really claims equality with the reference after every step / raise of a restored instance -- in particular  *)
+(* after the steps that continue a run restored AT ITS STOP                                                     *)
 ClaimsMade ==
   Done =>
     \A n \in 1..Len(script) :
       LET o == script[n] IN
-        ( /\ o.c = "step" /\ o.x >= 3
-          /\ hdr.mode # "relimit"
+        ( /\ o.c \in {"step", "raise"} /\ o.x >= 3
+          /\ hdr.mode # "relimit"                      \* (there the restored instance has a configuration history of its own)
           /\ (hdr.rng = "restore" \/ ~Stochastic)
-          /\ \A q \in 1..(o.g + 1) : inst[o.x].pos[q][3] = 0 )      \* no re-clipping perturbation so far
-        => o.r = o.g
-(* and where the generator was deliberately not restored for a DE kind, nothing is claimed about the trajectory *)
+          /\ ~inst[o.x].dev )
+        => o.r >= 0
+(* the original itself (never restored) stays on the reference's trajectory as long as only it steps under its own *)
+(* generator state                                                                                                *)
+OriginalOnTrack ==
+  Done => \A n \in 1..Len(script) : (script[n].x = 2 /\ script[n].c \in {"step", "raise"}) => script[n].r >= 0
 (* the generator labels are sound (pos only grows and instances never die: the final state subsumes all) *)
 LabelsSound == Done => RngLabelsFunctional
+(* and where the generator was deliberately not restored for a DE kind, nothing is claimed about the trajectory *)
 NothingClaimedUnrestored ==
   Done => \A n \in 1..Len(script) :
             (script[n].c = "step" /\ script[n].x >= 3 /\ hdr.rng = "scramble" /\ Stochastic) => script[n].r = -1
+(* vacuity witness (must be VIOLATED where the setting has a limit): a script restores the checkpoint taken at *)
+(* the stop and continues the restored instance                                                                 *)
+NeverAtStop ==
+  ~ (Done /\ hdr.atstop /\ \E n \in 1..Len(script) : script[n].c = "step" /\ script[n].x >= 3 /\ script[n].r >= 0)
 
 Emit == Done => PrintT(<<"@@", ToJson([kind |-> kind, sid |-> inst[2].cfg.id, n |-> MaxGen, np |-> NP,
-                                       refn |-> Len(refst), k |-> hdr.k, path |-> hdr.path, rng |-> hdr.rng,
+                                       refops |-> reflog, nw |-> hdr.nw, atstop |-> hdr.atstop,
+                                       k |-> hdr.k, path |-> hdr.path, rng |-> hdr.rng,
                                        mode |-> hdr.mode, ops |-> script])>>)
 
 ASSUME PrintT(<<"@@", ToJson([catalogue |-> GenSettings, kinds |-> GenKinds, n |-> MaxGen, np |-> NP])>>)
